@@ -169,7 +169,13 @@ def _draw_fault_op(rng, fk, k, ospec, fluids, grids):
     if fk == "F-crash-line":
         target = rng.choice(["simulate", "simulate", "simulate", "rf", "rfd", "interp"])
         if target == "simulate":
-            at = rng.choice([rng.randrange(1, 16), rng.randrange(1, 12 * n + 20)])
+            u = rng.random()
+            if u < 0.35:
+                # relative to the END of the call (where results are published): resolved at run time by a
+                # counting dry run of the same call on a throw-away fresh object
+                return {"op": "simulate", "obj": k, "grid": g, "sched": None,
+                        "fault": {"kind": "F-crash-line", "at": 0, "from_end": rng.randrange(0, 5)}}
+            at = rng.randrange(1, 16) if u < 0.65 else rng.randrange(1, 12 * n + 20)
             return {"op": "simulate", "obj": k, "grid": g, "sched": None, "fault": {"kind": "F-crash-line", "at": at}}
         at = rng.randrange(1, 25)
         if target == "interp":
@@ -276,7 +282,7 @@ class Runner:
         return cls(int(ospec["nx"]), pf, float(ospec["pi"]), fl)
 
     def _args(self, op):
-        t = np.array(self.scn["grids"][op["grid"]]["t"], dtype=float)
+        t = world.grid_array(self.scn["grids"][op["grid"]])
         sched = None
         if op.get("sched") is not None:
             sched = np.array(op["sched"]["v"], dtype=float)
@@ -303,6 +309,7 @@ class Runner:
                 return res.recovery_factor(density=True) if op.get("density") else res.recovery_factor()
             if kind == "interp":
                 f = res.recovery_factor_interpolator()
+                self._last_interp = f
                 return np.asarray(f(self.probe_t), dtype=float)
             raise ValueError(kind)
 
@@ -311,8 +318,11 @@ class Runner:
             with warnings.catch_warnings():
                 warnings.simplefilter("ignore")
                 if fault and fault["kind"] == "F-crash-line":
+                    at = int(fault["at"])
+                    if "from_end" in fault and kind == "simulate":
+                        at = max(1, self._count_events(op) - int(fault["from_end"]))
                     try:
-                        val, _n = seams.CRASH.run(thunk, crash_at=int(fault["at"]))
+                        val, _n = seams.CRASH.run(thunk, crash_at=at)
                     finally:
                         if seams.CRASH.where is not None:
                             fired = ("F-crash-line", seams.CRASH.where)
@@ -338,6 +348,18 @@ class Runner:
             self.faults_fired[fired[0]] = self.faults_fired.get(fired[0], 0) + 1
         out_fired = fired is not None
         return out, out_fired
+
+    def _count_events(self, op):
+        """Line events of this simulate call on a throw-away fresh object (pure function of code + arguments)."""
+        clone = self._fresh(op["obj"])
+        t, sched = self._args(op)
+        try:
+            with warnings.catch_warnings():
+                warnings.simplefilter("ignore")
+                _, n = seams.CRASH.run(lambda: clone.simulate(t) if sched is None else clone.simulate(t, sched), crash_at=None)
+            return n
+        except Exception:  # noqa: BLE001
+            return seams.CRASH.n
 
     @staticmethod
     def _state(res):
@@ -405,6 +427,7 @@ class Runner:
         abstract = [dict(done=False, cache="none", cache_cur=False, failed=False, sched=False) for _ in range(nobj)]
         last_sim_kind = [None] * nobj
         touched_fluid_by = {}
+        live_interps = [[] for _ in range(nobj)]  # (interpolator, its output when built) since the last simulate attempt
 
         for i, op0 in enumerate(scn["ops"]):
             k = op0["obj"]
@@ -430,8 +453,26 @@ class Runner:
                     self.probe("two_objects_one_fluid_interleaved")
                 s.append(k)
 
+            self._last_interp = None
             out_r, fired = self._call(real, op, fault if fault and fault["kind"] in ("F-crash-line", "F-solver-raise") else None)
             st_r = self._state(real)
+            # an interpolator, once built, is a function: later recovery / interpolator calls must not change
+            # what it returns (tracked until the next simulate attempt on that object)
+            if op["op"] == "simulate":
+                live_interps[k] = []
+            else:
+                for f_old, v_old in live_interps[k][-3:]:
+                    try:
+                        v_now = np.asarray(f_old(self.probe_t), dtype=float)
+                        same = _arr_eq(v_now, v_old)[0]
+                    except Exception:  # noqa: BLE001
+                        same = False
+                    if not same and not self.violations:
+                        self.violate(i, "R-interp-stable", op0, "value",
+                                     {"note": "an interpolator built earlier returns something else after this call",
+                                      **self._ctx(k, last_sim_kind)})
+                if self._last_interp is not None and out_r.ok:
+                    live_interps[k].append((self._last_interp, out_r.val))
             injected = fault is not None and fault["kind"] in ("F-crash-line", "F-solver-raise")
             if fault is not None and not injected:
                 # natural rejection: count it as fired when the library actually raised
@@ -847,7 +888,7 @@ def shrink_candidates(scn):
         if op["op"] == "repeat":
             continue
         f = op.get("fault")
-        if f and f["kind"] == "F-crash-line" and f["at"] > 1:
+        if f and f["kind"] == "F-crash-line" and f["at"] > 1 and "from_end" not in f:
             for at in (1, f["at"] // 2, f["at"] - 1):
                 if 1 <= at < f["at"]:
                     c = copy.deepcopy(scn)
